@@ -26,7 +26,7 @@ VERIF = os.path.dirname(os.path.dirname(os.path.abspath(__file__)))
 REPO = os.environ.get("VERIF_REPO", "/repo")
 SPEC = os.path.join(VERIF, "spec")
 HARNESS = os.path.join(VERIF, "harness")
-EVIDENCE = os.path.join(VERIF, "evidence")
+EVIDENCE = os.environ.get("VERIF_EVIDENCE_DIR") or os.path.join(VERIF, "evidence")
 NCPU = os.cpu_count() or 4
 
 GOENV = {
@@ -157,6 +157,41 @@ class Ctx:
         self.log("  %d distinct states, %d generated, %.1fs" % (rec["distinct"], rec["generated"], r["wall"]))
         return rec
 
+    def generate(self, module, cfg=None, workers=1, timeout=1800, overrides=None, raw=False):
+        """R: run a Gen_* configuration; every behaviour is printed by the Emit
+        pseudo-invariant as <<"BEHAVIOUR", x>>. Returns the list of x (strings,
+        JSON-decoded when they look like JSON)."""
+        d = self._specdir("gen-" + module)
+        if overrides:
+            cfgp = os.path.join(d, cfg or module + ".cfg")
+            txt = open(cfgp).read()
+            for k, v in overrides.items():
+                txt = re.sub(r"(?m)^(\s*(?:CONSTANT\s+)?%s\s*=\s*).*$" % re.escape(k), lambda m: m.group(1) + str(v), txt)
+            open(cfgp, "w").write(txt)
+        r = self.tlc(module, cfg, workers=workers, timeout=timeout, cwd=d)
+        out = r["out"]
+        m = re.search(r"(\d+) states generated, (\d+) distinct states found", out)
+        if "Model checking completed. No error has been found." not in out or not m:
+            raise Infra("behaviour generation %s failed (specification error, not a verdict):\n%s" % (module, out[-6000:]))
+        self.mc.append({"module": module, "cfg": cfg or module + ".cfg", "generated": int(m.group(1)),
+                        "distinct": int(m.group(2)), "wall_s": round(r["wall"], 1), "role": "behaviour generation"})
+        self.checker_cmds.append(r["cmd"])
+        items = []
+        for x in re.findall(r'<<"BEHAVIOUR", (.*?)>>\n', out, flags=re.S):
+            x = x.strip()
+            if x.startswith('"') and x.endswith('"'):
+                x = x[1:-1].replace('\\"', '"').replace("\\\\", "\\")
+            if raw:
+                items.append(x)
+                continue
+            try:
+                items.append(json.loads(x))
+            except ValueError:
+                items.append(x)
+        shutil.rmtree(d, True)
+        self.log("  %s generated %d behaviours (%d distinct states)" % (module, len(items), int(m.group(2))))
+        return items
+
     def validate(self, module, files, timeout=3600, cfg=None):
         """Trace validation: one TLC process per trace shard. Returns
         (events, rejects) where rejects is a list of (file, line_no, event)."""
@@ -171,10 +206,10 @@ class Ctx:
             n = sum(1 for _ in open(f))
             r = self.tlc(module, cfg, workers=1, timeout=timeout, cwd=d)
             out = r["out"]
-            done = re.search(r'<<"DONE", (\d+)>>', out)
+            done = re.search(r'"DONE (\d+)"', out)
             if not done or int(done.group(1)) != n:
                 raise Infra("trace validation of %s did not consume the whole trace (%s of %d):\n%s" % (f, done.group(1) if done else "?", n, out[-6000:]))
-            rej = [(f, int(x)) for x in re.findall(r'<<"REJECT", (\d+)', out)]
+            rej = [(f, int(x), why) for x, why in re.findall(r'"REJECT (\d+) ([^\n]*)"\n', out)]
             shutil.rmtree(d, True)
             return n, rej, r["cmd"]
 
@@ -185,52 +220,112 @@ class Ctx:
                 rejects += rej
         self.checker_cmds.append(cmd + "   (x%d trace shards)" % len(files))
         out = []
-        for f, ln in rejects:
+        byfile = {}
+        for f, ln, why in rejects:
+            byfile.setdefault(f, {})[ln] = why
+        for f, lines in byfile.items():
             with open(f) as fh:
                 for k, line in enumerate(fh, 1):
-                    if k == ln:
-                        out.append((f, ln, json.loads(line)))
-                        break
+                    if k in lines:
+                        e = json.loads(line)
+                        e["_why"] = lines[k].replace('\\"', '"')
+                        out.append((f, k, e))
         return total, out
 
-    def record(self, family, shards=None, extra=None, infile=None, tag="trace", timeout=3600, binary=None, env=None):
+    def record(self, family, shards=None, extra=None, infile=None, tag="trace", timeout=3600, binary=None, env=None, parts=1):
+        """Run the family's driver. parts > 1 starts that many harness processes,
+        each executing every parts-th case (used when calls must be executed
+        serially inside a process because allocation is measured)."""
         shards = shards or NCPU
         out = os.path.join(self.scratch, "%s-%s.ndjson" % (family, tag))
-        args = ["record", family, "-seed", str(self.seed), "-tier", self.tier, "-out", out, "-shards", str(shards)]
+        base = ["record", family, "-seed", str(self.seed), "-tier", self.tier]
         if infile:
-            args += ["-in", infile]
+            base += ["-in", infile]
         if extra:
-            args += extra
-        self.harness(args, timeout=timeout, binary=binary, env=env)
-        if shards == 1:
-            return [out]
-        return ["%s.%d" % (out, i) for i in range(shards)]
+            base += extra
+        if parts <= 1:
+            self.harness(base + ["-out", out, "-shards", str(shards)], timeout=timeout, binary=binary, env=env)
+            if shards == 1:
+                return [out]
+            return ["%s.%d" % (out, i) for i in range(shards)]
+        files = []
 
-    def record_and_validate(self, family, module, case_fields, describe, shards=None, extra=None, timeout=3600):
+        def one(i):
+            o = out if i == 0 else "%s.part%d" % (out, i)
+            self.harness(base + ["-out", o, "-shards", "1", "-part", "%d/%d" % (i, parts)], timeout=timeout, binary=binary, env=env)
+            return o
+        with concurrent.futures.ThreadPoolExecutor(max_workers=parts) as ex:
+            files = list(ex.map(one, range(parts)))
+        return files
+
+    def load_cases(self, family, tag="trace"):
+        p = os.path.join(self.scratch, "%s-%s.ndjson.cases" % (family, tag))
+        with open(p) as fh:
+            return [json.loads(line) for line in fh]
+
+    def record_and_validate(self, family, module, describe=None, shards=None, extra=None, timeout=3600, cfg=None, env=None, key=None, parts=1):
         """V: record the family's trace from the real code, validate with TLC.
-        A rejected event is re-executed from its inputs (case_fields) against the
-        real code and re-validated before it counts as a violation."""
-        files = self.record(family, shards=shards, extra=extra)
-        self.log("recorded %s trace, validating with %s" % (family, module))
-        n, rejects = self.validate(module, files, timeout=timeout)
+        The case of every rejected event is re-executed against the real code and
+        re-validated before it counts as a violation (one violation per case)."""
+        files = self.record(family, shards=shards, extra=extra, env=env, parts=parts)
+        cases = self.load_cases(family)
+        self.log("recorded %s trace (%d cases), validating with %s %s" % (family, len(cases), module, cfg or ""))
+        n, rejects = self.validate(module, files, timeout=timeout, cfg=cfg)
         self.log("  %d events validated, %d rejected" % (n, len(rejects)))
-        confirmed = []
         if rejects:
-            # re-execute the rejected cases from their inputs
-            cases = os.path.join(self.scratch, "%s-recheck-cases.ndjson" % family)
-            with open(cases, "w") as fh:
-                for _, _, e in rejects[:500]:
-                    fh.write(json.dumps(case_fields(e)) + "\n")
-            f2 = self.record(family, shards=1, infile=cases, tag="recheck")
-            n2, rej2 = self.validate(module, f2)
+            cids = sorted({e["cid"] for _, _, e in rejects})
+            # re-execute: at most 400 cases, but at least one of every failure class
+            byclass = {}
+            for _, _, e in rejects:
+                byclass.setdefault(e["_why"], []).append(e["cid"])
+            chosen = []
+            for why, cs in byclass.items():
+                chosen += cs[:40]
+            chosen = sorted(set(chosen))[:400]
+            path = os.path.join(self.scratch, "%s-recheck-cases.ndjson" % family)
+            with open(path, "w") as fh:
+                for cid in chosen:
+                    fh.write(json.dumps(cases[cid]) + "\n")
+            f2 = self.record(family, shards=1, infile=path, tag="recheck", extra=extra, env=env)
+            n2, rej2 = self.validate(module, f2, cfg=cfg)
+            seen = set()
             for _, _, e in rej2:
-                confirmed.append(e)
-        for e in confirmed:
-            self.violation(describe(e), {"family": family, "trace_module": module, "case": case_fields(e), "event": e})
-        return n, files
+                case = cases[chosen[e["cid"]]]
+                if e["cid"] in seen:
+                    continue
+                seen.add(e["cid"])
+                what = (describe(e, case) if describe else "") or ("%s rejects recorded event: %s" % (module, e["_why"]))
+                k = key(e, case) if key else "%s %s" % (family, e["_why"])
+                self.violation(what, {"family": family, "trace_module": module, "cfg": cfg, "case": case,
+                                      "event": trim(e), "failed_obligations": e["_why"], "extra": extra}, key=k)
+            self.log("  re-executed %d rejected case(s) (of %d): %d confirmed" % (len(chosen), len(cids), len(seen)))
+        return n, files, cases
+
+    def replay_case(self, path, family, module, cfg=None):
+        """--replay: re-execute the recorded case against the current tree and
+        validate the fresh events."""
+        obj = json.load(open(path))
+        self.build_harness()
+        cpath = os.path.join(self.scratch, "replay-cases.ndjson")
+        with open(cpath, "w") as fh:
+            fh.write(json.dumps(obj["case"]) + "\n")
+        f = self.record(family, shards=1, infile=cpath, tag="replay", extra=obj.get("extra"))
+        n, rej = self.validate(module, f, cfg=obj.get("cfg") or cfg)
+        if rej:
+            print("VIOLATION property=%s replay=%s" % (self.prop, path))
+            print("  still rejected on the current tree: " + rej[0][2]["_why"])
+            return 1
+        print("replayed case is accepted by the specification on the current tree (%d events)" % n)
+        return 0
 
     # ----------------------------------------------------------- verdicts
     def violation(self, what, replay_obj, key=None):
+        key = key or what
+        n = sum(1 for v in self.violations if v["key"] == key)
+        if n >= 3:
+            # same failure class already has three replay files: count only
+            self.violations.append({"what": what, "replay": None, "key": key})
+            return
         self._nrep += 1
         os.makedirs(os.path.join(EVIDENCE, "replays"), exist_ok=True)
         path = os.path.join(EVIDENCE, "replays", "%s-%d-%d.json" % (self.prop, self.seed, self._nrep))
@@ -264,11 +359,29 @@ class Ctx:
             if t not in seen:
                 seen.add(t)
                 print("KNOWN-FINDING: property=%s %s" % (self.prop, t))
-        for v, _ in new[:50]:
+        counts = {}
+        for v, _ in new:
+            counts[v["key"]] = counts.get(v["key"], 0) + 1
+        printed = set()
+        for v, _ in new:
+            if v["key"] in printed or not v["replay"]:
+                continue
+            printed.add(v["key"])
             print("VIOLATION property=%s replay=%s" % (self.prop, v["replay"]))
-            print("  " + v["what"][:600])
+            print("  [%d case(s) of this class] %s" % (counts[v["key"]], v["what"][:600]))
         self.log("done: %d violation(s), %d known finding hit(s), %.1fs" % (len(new), len(listed), time.time() - self.t0))
         return 1 if new else 0
+
+
+def trim(o, n=64):
+    """Shorten long byte arrays for human-readable replay files."""
+    if isinstance(o, list):
+        if len(o) > n and all(isinstance(x, int) for x in o):
+            return o[:n] + ["... %d more" % (len(o) - n)]
+        return [trim(x, n) for x in o]
+    if isinstance(o, dict):
+        return {k: trim(v, n) for k, v in o.items()}
+    return o
 
 
 def load_known(prop):
